@@ -38,7 +38,7 @@ CONSTANTS Ids, Slots, Accts, Paths, Keys, MaxKids, MaxDepth, MaxOps, MaxTx,
           NoEvent,     \* ids of resources whose type does not declare ResourceDestroyed
           Big,         \* ids of resources with a large payload (stand-alone slabs)
           SlotRep,     \* [Slots -> {"var","dict","arr"}]
-          Forms        \* enabled optional forms: subset of {"direct","shift","bad","fn","reput"}
+          Forms        \* enabled optional forms: subset of {"direct","shift","bad","fn","reput"}; "noabort" disables Abort
 
 Nested  == {"child", "kid", "dict"}
 Nowhere == [k |-> "none", a |-> 0, b |-> 0]
@@ -144,7 +144,9 @@ AbortTx(lbl) == /\ loc' = com.loc /\ created' = com.created /\ destroyed' = com.
 Kill(l, D) == [v \in Ids |-> IF v \in D THEN Nowhere ELSE l[v]]
 Emit(D)    == [v \in Ids |-> IF v \in D /\ v \notin NoEvent THEN evs[v] + 1 ELSE evs[v]]
 
-Begin == /\ phase = "idle" /\ ntx < MaxTx /\ phase' = "tx" /\ nops' = 0 /\ ntx' = ntx + 1
+\* MaxTx = 0: no bound on the number of transactions (the state space is finite anyway: ids are not reused)
+Begin == /\ phase = "idle" /\ (MaxTx = 0 \/ ntx < MaxTx) /\ phase' = "tx" /\ nops' = 0
+         /\ ntx' = IF MaxTx = 0 THEN 0 ELSE ntx + 1
          /\ last' = [op |-> "begin"] /\ UNCHANGED <<loc, created, destroyed, evs, com>>
 Commit ==
   /\ phase = "tx"
@@ -157,7 +159,7 @@ Commit ==
      /\ last' = [op |-> "commit", dead |-> D, ev |-> D \ NoEvent, inv |-> D,
                  pop |-> Population(l2), roots |-> RootCount(l2)] @@ Obs(l2)
      /\ nops' = 0 /\ UNCHANGED <<created, ntx>>
-Abort == phase = "tx" /\ AbortTx([op |-> "abort"])
+Abort == phase = "tx" /\ "noabort" \notin Forms /\ AbortTx([op |-> "abort"])
 
 \* ------------------------------------------------------------ moves
 FreshId == CHOOSE u \in Ids \ created : \A v \in Ids \ created : u <= v
@@ -200,15 +202,15 @@ ShiftablePlace(pl) == pl.k \in {"child", "kid", "dict"} \/ (pl.k = "slot" /\ Swa
 Shift(w, m, dst) ==
   /\ InTx /\ "shift" \in Forms
   /\ m \in Live(loc) /\ m # w
-  /\ w = 0 \/ w \in Live(loc)
+  /\ (IF w = 0 THEN TRUE ELSE w \in Live(loc))
   /\ w = 0 => created # Ids
   /\ LET nw  == IF w = 0 THEN FreshId ELSE w
          l1  == IF w = 0 THEN loc ELSE Take(loc, w)
          mid == l1[m]
          l2  == [l1 EXCEPT ![m] = Nowhere, ![nw] = mid] IN
      /\ Anchored(l1, m) /\ ShiftablePlace(mid)
-     /\ w # 0 => OneSideSlot(loc[w], mid)
-     /\ OneSideSlot(mid, dst)
+     /\ "direct" \notin Forms => /\ (IF w = 0 THEN TRUE ELSE loc[w].k = "slot")
+                                /\ dst.k \in {"slot", "store"}
      /\ mid.k \in Nested => Depth(l1, mid.a) + 1 + Height(l1, nw) <= MaxDepth
      /\ Free(l2, dst, m)
      /\ loc' = Put(l2, m, dst)
